@@ -250,6 +250,8 @@ func (e StdEng) reduce(
 
 		retVal = a
 		dimsReduced := 0
+		// the axes are reduced in ascending order - on a copy: the slice is the caller's
+		along = append([]int(nil), along...)
 		sort.Slice(along, func(i, j int) bool { return along[i] < along[j] })
 
 		for _, axis := range along {
